@@ -2,12 +2,19 @@
 """Collect `./check selftest` outcomes from the background-run logs into mutants/RESULTS.txt."""
 import re, glob, os
 rows = {}
+# rows recorded by earlier sessions (their logs no longer exist): keep unless re-run now
+if os.path.exists('/verif/mutants/RESULTS.txt'):
+    for l in open('/verif/mutants/RESULTS.txt'):
+        m = re.match(r"(\S+\.patch)\s+(killed|SURVIVED\(exit (\d+)\))\s+(.*)", l)
+        if m:
+            rows[m.group(1)] = ("1" if m.group(2) == "killed" else m.group(3), "?", m.group(4).strip())
 for f in sorted(glob.glob('/root/.vp/runs/*/log')) + sorted(glob.glob('/tmp/selftest-*.log')):
     for l in open(f, errors='replace'):
         m = re.match(r"selftest (\S+)\s+exit=(\d+)\s+(\d+)s\s+(.*)", l)
         if m:
             rows[m.group(1)] = (m.group(2), m.group(3), m.group(4).strip())
 out = ["# own mutants (mutants/*.patch) and the obligation that killed them in `./check selftest` (exit 1 = killed)", ""]
+rows = {k: v for k, v in rows.items() if os.path.exists('/verif/mutants/' + k)}
 for k in sorted(rows):
     e, t, o = rows[k]
     out.append("%-52s %s  %s" % (k, "killed  " if e == "1" else "SURVIVED(exit %s)" % e, o[:260]))
